@@ -94,12 +94,13 @@ fn item_definition_type(item_definition: &ItemDefinition) -> Result<ItemDefiniti
   );
   match condition {
     (_, true, false, false) => Ok(ItemDefinitionType::SimpleType(feel_type.unwrap())),
-    (true, false, false, false) => Ok(ItemDefinitionType::ReferencedType(item_definition.type_ref().as_ref().unwrap().clone())),
+    // white space around the name of the referenced item definition is no part of the name
+    (true, false, false, false) => Ok(ItemDefinitionType::ReferencedType(item_definition.type_ref().as_ref().unwrap().trim().to_string())),
     (false, false, true, false) => Ok(ItemDefinitionType::ComponentType),
     (_, true, false, true) => Ok(ItemDefinitionType::CollectionOfSimpleType(feel_type.unwrap())),
     (false, false, true, true) => Ok(ItemDefinitionType::CollectionOfComponentType),
     (true, false, false, true) => Ok(ItemDefinitionType::CollectionOfReferencedType(
-      item_definition.type_ref().as_ref().unwrap().clone(),
+      item_definition.type_ref().as_ref().unwrap().trim().to_string(),
     )),
     _ => Err(err_invalid_item_definition_type(item_definition.name())),
   }
